@@ -17,6 +17,12 @@ import (
 type Query struct {
 	Hyps []*Term
 	Goal *Term
+	// NoAxioms: label prefixes of axioms that are not given to the solver for this query
+	// (contract attribute `noaxioms`: the proof treats those spec functions as uninterpreted)
+	NoAxioms []string
+	// Opaque: name prefixes of defined spec functions that are left uninterpreted in this query
+	// (contract attribute `opaque`; sound: the solver knows less)
+	Opaque []string
 }
 
 // Prelude knows about spec functions, axioms and string literals.
@@ -75,7 +81,13 @@ func (p *Prelude) Emit(q *Query, wantModel bool) (string, []string) {
 	for changed {
 		changed = false
 		for name := range syms {
-			if d, ok := p.Defs[name]; ok && !usedDefs[name] {
+			isOpaque := false
+			for _, pre := range q.Opaque {
+				if strings.HasPrefix(name, pre) {
+					isOpaque = true
+				}
+			}
+			if d, ok := p.Defs[name]; ok && !usedDefs[name] && !isOpaque {
 				usedDefs[name] = true
 				inner := map[string]SymSig{}
 				d.Body.Symbols(inner)
@@ -106,6 +118,15 @@ func (p *Prelude) Emit(q *Query, wantModel bool) (string, []string) {
 		}
 		for i, ax := range p.Axioms {
 			if usedAx[i] {
+				continue
+			}
+			skip := false
+			for _, pre := range q.NoAxioms {
+				if strings.HasPrefix(ax.Label, pre) {
+					skip = true
+				}
+			}
+			if skip {
 				continue
 			}
 			trig := false
